@@ -35,6 +35,8 @@ type Input struct {
 	Bodies map[string][]byte // route (host or host/path) -> HTTP 200 body; "ocsp*" / "crl*" are catch-alls
 	// Lengths announces a Content-Length for a route whatever its body holds
 	Lengths map[string]int64
+	// Endless marks routes whose body never ends (zeros after Bodies' bytes)
+	Endless map[string]bool
 	// Together makes requests that arrive within a few milliseconds of each
 	// other be answered at the same instant
 	Together bool
@@ -730,7 +732,7 @@ func genHostileBody(rng *rand.Rand, idx int) Input {
 	}
 	ch := pki.MustBuild(specs...)
 	cert, issuer, ikey := ch.Certs[0], ch.Certs[1], ch.Keys[1]
-	in := Input{Kind: "chain", WithST: rng.IntN(2) == 0, Cache: rng.IntN(2) == 0, Bodies: map[string][]byte{}, Lengths: map[string]int64{}}
+	in := Input{Kind: "chain", WithST: rng.IntN(2) == 0, Cache: rng.IntN(2) == 0, Bodies: map[string][]byte{}, Lengths: map[string]int64{}, Endless: map[string]bool{}}
 	if upper {
 		b := pki.BuildCRL(&pki.CRL{IssuerRawName: ch.Certs[2].RawSubject, SignKey: ch.Keys[2], NextUpdate: pki.Future, Number: big.NewInt(7)})
 		in.Bodies[fmt.Sprintf("e0.%s.test/base.crl", fam)] = b[:len(b)-1]
@@ -743,6 +745,10 @@ func genHostileBody(rng *rand.Rand, idx int) Input {
 	for j := 0; j < nO; j++ {
 		body, d := hostileOCSP(rng, cert, issuer, ikey)
 		in.Bodies[fmt.Sprintf("o%d.%s.test", j, fam)] = body
+		if rng.IntN(25) == 0 {
+			in.Endless[fmt.Sprintf("o%d.%s.test", j, fam)] = true
+			d += " endless-body"
+		}
 		if rng.IntN(6) == 0 {
 			l := lyingLengths[rng.IntN(len(lyingLengths))]
 			in.Lengths[fmt.Sprintf("o%d.%s.test", j, fam)] = l
@@ -754,6 +760,10 @@ func genHostileBody(rng *rand.Rand, idx int) Input {
 		host := fmt.Sprintf("d%d.%s.test", j, fam)
 		base, delta, d := hostileCRL(rng, cert, issuer, ikey, "http://"+host+"/delta0.crl")
 		in.Bodies[host+"/base.crl"] = base
+		if rng.IntN(60) == 0 {
+			in.Endless[host+"/base.crl"] = true
+			d += " endless-body"
+		}
 		if rng.IntN(6) == 0 {
 			l := lyingLengths[rng.IntN(len(lyingLengths))]
 			in.Lengths[host+"/base.crl"] = l
@@ -945,6 +955,15 @@ func hostileCRL(rng *rand.Rand, cert, issuer *x509.Certificate, ikey *pki.Key, d
 	default:
 		tgt.Entries = append(tgt.Entries, entry)
 		d = "valid-with-entry"
+		if dl != nil && rng.IntN(2) == 0 {
+			// the other list is not empty either
+			o := b
+			if tgt == b {
+				o = dl
+			}
+			o.Entries = append(o.Entries, pki.CRLEntry{Serial: big.NewInt(int64(7000 + rng.IntN(9))), Time: pki.Mid, Reason: []int{-1, 1, 6, 8}[rng.IntN(4)]})
+			d += "+other-list-non-empty"
+		}
 	}
 	if tgt == dl {
 		d = "delta:" + d
